@@ -226,6 +226,74 @@ func runNested(variant string, calls []string) (string, string) {
 	return "", ""
 }
 
+// runMultiArgument: a message made of SEVERAL arguments (the idiomatic LogError(err, "context"), err possibly nil) through a
+// composite whose first member is one of the library's own loggers and whose second member records what it is handed:
+// the recorder gets the arguments as the caller gave them, and the caller's own slice is unchanged afterwards.
+// calls = one or two entries "<first member>|<stream>|<argument list index>".
+var argumentLists = [][]interface{}{
+	{nil, "disk", "full"}, {"disk", nil, "full"}, {"disk", "full", nil}, {nil, nil, "x"}, {fmt.Errorf("boom"), "while writing"}, {"only"}, {1, 2, "three"},
+}
+
+type argRec struct{ got [][]interface{} }
+
+func (r *argRec) Close() error                 { return nil }
+func (r *argRec) Check() error                 { return nil }
+func (r *argRec) SetLogSource(string) error    { return nil }
+func (r *argRec) SetLoggerSource(string) error { return nil }
+func (r *argRec) Log(o ...interface{})         { r.got = append(r.got, append([]interface{}(nil), o...)) }
+func (r *argRec) LogError(o ...interface{})    { r.got = append(r.got, append([]interface{}(nil), o...)) }
+
+func runMultiArgument(variant string, calls []string) (string, string) {
+	var first logs.Loggers
+	var err error
+	parts := strings.SplitN(variant, "/", 2)
+	switch parts[0] {
+	case "noop":
+		first, err = logs.NewNoopLogger("t")
+	case "string":
+		first, err = logs.NewStringLogger("t")
+	case "json":
+		first, err = logs.NewJSONLogger(&countingSink{}, "t", "src")
+	}
+	if err != nil {
+		return "engine", err.Error()
+	}
+	rec := &argRec{}
+	var comp logs.IMultipleLoggers
+	if parts[1] == "NewCombinedLoggers" {
+		comp, err = logs.NewCombinedLoggers(first, rec)
+	} else {
+		comp, err = logs.NewMultipleLoggers("t", first, rec)
+	}
+	if err != nil {
+		return "engine", err.Error()
+	}
+	for n, c := range calls {
+		var stream string
+		var idx int
+		if _, e := fmt.Sscanf(c, "%s %d", &stream, &idx); e != nil {
+			return "engine", "bad call " + c
+		}
+		original := argumentLists[idx%len(argumentLists)]
+		mine := append(make([]interface{}, 0, len(original)+2), original...) // the caller's own slice
+		if stream == "Log" {
+			comp.Log(mine...)
+		} else {
+			comp.LogError(mine...)
+		}
+		if len(rec.got) != n+1 {
+			return "member-missed-message:logger=composite:several-arguments", fmt.Sprintf("the recording member has %d messages after %d calls", len(rec.got), n+1)
+		}
+		if fmt.Sprint(rec.got[n]...) != fmt.Sprint(original...) || len(rec.got[n]) != len(original) {
+			return "member-got-altered-message:logger=composite:several-arguments:first-member=" + parts[0], fmt.Sprintf("%s(%q) reached the second member as %q", stream, fmt.Sprint(original...), fmt.Sprint(rec.got[n]...))
+		}
+		if fmt.Sprint(mine...) != fmt.Sprint(original...) {
+			return "callers-arguments-modified:logger=composite:several-arguments:first-member=" + parts[0], fmt.Sprintf("the caller's slice %q became %q", fmt.Sprint(original...), fmt.Sprint(mine...))
+		}
+	}
+	return "", ""
+}
+
 // countingSink counts the writes it receives (one per record for the JSON logger).
 type countingSink struct{ lines []string }
 
@@ -294,6 +362,8 @@ func runSeqCase(dir string, c seqCase) (string, string) {
 		return runUnusualMessages(c.Calls)
 	case "sequence:nested":
 		return runNested(c.Variant, c.Calls)
+	case "sequence:several-arguments":
+		return runMultiArgument(c.Variant, c.Calls)
 	}
 	return runSharedSlice(c.Variant, c.Calls)
 }
@@ -370,6 +440,21 @@ func sequenceFamilies(rep *ev.Reporter) map[string]int {
 			}
 		}
 		gen(nil)
+	}
+	// messages of several arguments, nil among them, through a composite whose first member is a logger of the library
+	for _, first := range []string{"noop", "string", "json"} {
+		for _, ctor := range []string{"NewCombinedLoggers", "NewMultipleLoggers"} {
+			for _, stream := range []string{"Log", "LogError"} {
+				for i := range argumentLists {
+					report(seqCase{Scenario: "sequence:several-arguments", Variant: first + "/" + ctor, Calls: []string{fmt.Sprintf("%s %d", stream, i)}})
+					counts["several-arguments"]++
+					for j := range argumentLists {
+						report(seqCase{Scenario: "sequence:several-arguments", Variant: first + "/" + ctor, Calls: []string{fmt.Sprintf("%s %d", stream, i), fmt.Sprintf("LogError %d", j)}})
+						counts["several-arguments"]++
+					}
+				}
+			}
+		}
 	}
 	// every message of the list alone, and every ordered pair
 	for i := range unusualMessages {
